@@ -114,7 +114,7 @@ U_ALL = {'err', 'ret', 'post', 'ctr', 'oracle'}
 prop('C01',
      modules=['WitnessVerif.Props.C01'],
      scenarios=lambda tier: hist_scenarios(tier),
-     diverge={'U': {'err', 'post', 'oracle'}, 'VC': None},
+     diverge={'U': {'accept', 'post', 'oracle'}, 'VC': None},
      nontrivial=lambda u: u.get('pre') not in ('-', None) and u.get('err') not in ('unknownLog', 'noValidSig'),
      rule='histories of Witness.Update against forking logs (explicit trees of 20 leaves with forks at 0,1,4,8,9; virtual piecewise-uniform trees up to 2^63) on in-memory, SQLite :memory: and SQLite file storage; monitor: cosigned checkpoints of a log have non-decreasing sizes, equal sizes equal roots, and never lie on two different branches of the ground-truth trees; non-trivial = a checkpoint is stored and the request authenticates',
      assumptions=['collision-free node hasher (Inj H) in the theorems; SHA-256 in the executions'],
@@ -122,8 +122,8 @@ prop('C01',
 
 prop('C03',
      modules=['WitnessVerif.Props.C03'],
-     scenarios=lambda tier: hist_scenarios(tier) + [sc('notemut')],
-     diverge={'U': {'err', 'ret', 'post', 'oracle'}},
+     scenarios=lambda tier: hist_scenarios(tier) + [sc('notemut'), sc('fault')],
+     diverge={'U': {'accept', 'ret', 'post', 'oracle'}},
      nontrivial=lambda u: u.get('err') != 'none',
      rule='every refused Update of the history/exhaustive/mutation scenarios: state of every configured log and the log list are read before and after (digest), returned bytes compared with the stored checkpoint; non-trivial = the request was refused; histogram lists the refusal classes hit',
      exhaustive=True)
@@ -131,7 +131,7 @@ prop('C03',
 prop('C20',
      modules=['WitnessVerif.Props.C20'],
      scenarios=lambda tier: hist_scenarios(tier),
-     diverge={'U': {'err', 'ctr', 'oracle'}},
+     diverge={'U': {'ctr'}},
      nontrivial=lambda u: True,
      rule='the four witness counters are read through a recording MetricFactory before and after every Update of the C09 histories; compared with the model and with the increments implied by the verdict',
      exhaustive=True)
@@ -139,7 +139,7 @@ prop('C20',
 prop('C02',
      modules=['WitnessVerif.Props.C02'],
      scenarios=lambda tier: [sc('notemut')] + ([sc('hist', n=40)] * 2 if tier == 'quick' else [sc('notemut', n=12)] + [sc('hist', n=400)] * 6),
-     diverge={'U': {'err', 'post', 'oracle'}},
+     diverge={'U': {'accept', 'post', 'oracle'}},
      nontrivial=lambda u: u.get('class', '').startswith('mut.') or u.get('class', '').startswith('corrupt') or u.get('class') in ('crossLog', 'unknownLog', 'shape'),
      rule='mutation streams over one valid checkpoint per configuration (every k-th single-bit flip, every k-th truncation, line deletions/duplications/swaps/insertions of CR, TAB, NBSP, U+2028, 0xFF, 0x01, signature-block edits, cross-log and cross-origin replays with shared keys, unknown IDs) on a witness with 3 logs (two sharing a key), with and without stored state; monitor: accepted => the submitted bytes authenticate under the configured verifier and origin (verifier queries recorded from the real verifier)',
      assumptions=['unforgeability of Ed25519 is outside the statement: theorems are relative to the verification predicate'])
@@ -166,3 +166,12 @@ prop('C19',
      nontrivial_line=lambda k, line: k in ('H', 'PB', 'PFU') and ('class=mutated' in line or 'malformed' in line or k == 'PFU'),
      rule='arbitrary and mutated bytes against the add-checkpoint handler (panics recovered and reported), parseBody and Proof.Unmarshal; status must be in {200,400,403,404,409,422,429,500}',
      assumptions=['memory safety and panics inside dependencies are only exercised'])
+
+prop('C07',
+     modules=['WitnessVerif.Props.C07'],
+     scenarios=lambda tier: [sc('fault')],
+     diverge={'U': {'accept', 'ret', 'post', 'calls', 'oracle'}},
+     nontrivial=lambda u: u.get('faults', '') != '',
+     rule='8 history kinds (first use, growth, refresh, stale, bad proof, fork, same-size fork, bad signature) x 16 interface-level fault sets (every single and pairs of WriteOps/GetLatest/Set/Close/signer failures) on the in-memory and the file-backed SQLite store, x 8-11 SQL-driver-level fault sets (begin, query, exec, commit, rollback and pairs) through a wrapping database/sql driver with the production pool size; each followed by fault-free reads (3 s deadline) and an honest continuation step; storage-call script, verdict, returned bytes and state compared with the model; non-trivial = a fault was injected',
+     assumptions=['injected driver failures are clean (a failed COMMIT rolls back, as go-sqlite3 does)', 'the deadline is a runtime observation'],
+     exhaustive=True)
